@@ -2623,6 +2623,128 @@ Proof.
 Qed.
 
 (* ------------------------------------------------------------------ *)
+(* slice only returns entries the log holds: a positive scan exhibits a real entry *)
+
+Lemma limit_size_incl l max e : In e (limit_size l max) -> In e l.
+Proof.
+  unfold limit_size, limit_size_by. destruct (length l <=? 1)%nat; [auto|].
+  destruct max as [mx|]; [|auto]. destruct (mx =? NO_LIMIT); [auto|]. apply In_firstn_in.
+Qed.
+
+Lemma In_skipn_in {A} (k : nat) (l : list A) e : In e (skipn k l) -> In e l.
+Proof. intros H. rewrite <- (firstn_skipn k l). apply in_or_app. right; exact H. Qed.
+
+Lemma store_entries_incl l lo hi max ents e :
+  store_entries l lo hi max = Ok (SOk ents) -> In e ents -> In e (entries (store l)).
+Proof.
+  unfold store_entries, storage_entries. intros H He. inv_bind H. inv_bind Hx.
+  repeat match type of Hx with
+         | (if ?c then _ else _) = _ => destruct c; [inversion Hx; subst; cbn in H; discriminate|]
+         end.
+  destruct (entries (store l)) as [|e0 rest] eqn:Ee; [discriminate|].
+  repeat match type of Hx with
+         | (if ?c then _ else _) = _ => destruct c; [inversion Hx; subst; cbn in H; discriminate|]
+         end.
+  inversion Hx; subst. cbn in H. inversion H; subst.
+  apply limit_size_incl, In_firstn_in, In_skipn_in in He. exact He.
+Qed.
+
+Lemma slice_store_part l lo uh max r1 :
+  (r <- store_entries l lo uh max ;;
+   match r with
+   | SErr Compacted => Ok (inl (SErr Compacted))
+   | SErr LogTemporarilyUnavailable => Ok (inl (SErr LogTemporarilyUnavailable))
+   | SErr _ => Panic site_l_slice_unavailable
+   | SOk ents =>
+       if N.of_nat (length ents) <? uh - lo then Ok (inl (SOk ents)) else Ok (inr ents)
+   end) = Ok r1 ->
+  forall ents, (r1 = inl (SOk ents) \/ r1 = inr ents) ->
+  forall e, In e ents -> In e (entries (store l)).
+Proof.
+  intros H ents Hr e He. inv_bind H. destruct x as [v|er].
+  - assert (v = ents).
+    { destruct (N.of_nat (length v) <? uh - lo); inversion H; subst;
+        destruct Hr as [Hr|Hr]; inversion Hr; reflexivity. }
+    subst v. eapply store_entries_incl; eassumption.
+  - destruct er; inversion H; subst; destruct Hr as [Hr|Hr]; inversion Hr.
+Qed.
+
+Lemma slice_incl l lo hi max ents e :
+  slice l lo hi max = Ok (SOk ents) -> In e ents -> all_ents l e.
+Proof.
+  unfold slice. intros H He. inv_bind H. destruct x; [inversion H|].
+  destruct (lo =? hi). { inversion H; subst. destruct He. }
+  inv_bind H.
+  assert (Hst : forall ents1, (x = inl (SOk ents1) \/ x = inr ents1) ->
+                  forall e1, In e1 ents1 -> all_ents l e1).
+  { intros ents1 Hr e1 He1. destruct (lo <? u_offset (unst l)).
+    - right. eapply slice_store_part; eassumption.
+    - inversion Hx0; subst. destruct Hr as [Hr|Hr]; inversion Hr; subst. destruct He1. }
+  destruct x as [early|ents1].
+  { inversion H; subst. eapply Hst; [left; reflexivity|exact He]. }
+  inv_bind H. inversion H; subst. apply limit_size_incl in He.
+  destruct (u_offset (unst l) <? hi).
+  - inv_bind Hx1. inversion Hx1; subst. apply in_app_or in He. destruct He as [He|He].
+    + eapply Hst; [right; reflexivity|exact He].
+    + left. unfold u_slice in Hx2. inv_bind Hx2. inversion Hx2; subst.
+      apply In_firstn_in, In_skipn_in in He. exact He.
+  - inversion Hx1; subst. eapply Hst; [right; reflexivity|exact He].
+Qed.
+
+(* a positive answer of has_unapplied_conf_changes is witnessed by an entry of the log *)
+Theorem has_unapplied_true_witness r lo hi :
+  has_unapplied_conf_changes r lo hi = Ok true ->
+  exists e, all_ents (r_log r) e /\ is_conf_entry e = true.
+Proof.
+  intros H. apply has_unapplied_spec in H. destruct H as [[_ H]|[_ H]]; [discriminate|].
+  apply scan_conf_true in H. destruct H as (pages & lo' & ents & _ & _ & Hs & He).
+  apply existsb_exists in He. destruct He as (e & Hin & Hc). exists e. split; [|exact Hc].
+  eapply slice_incl; eassumption.
+Qed.
+
+(* the leader invariant for the remaining Raft API functions, in LInv form *)
+Theorem raft_apply_conf_change_LInv r cc r' ocs :
+  raft_apply_conf_change r cc = Ok (r', ocs) -> LInv r -> LInv r'.
+Proof. intros H. apply lk_LInv. eapply raft_apply_conf_change_lk; exact H. Qed.
+
+Theorem on_persist_entries_LInv r i t r' : on_persist_entries r i t = Ok r' -> LInv r -> LInv r'.
+Proof. intros H. apply fr_LInv. eapply on_persist_entries_fr; exact H. Qed.
+
+Theorem on_persist_snap_LInv r i r' : on_persist_snap r i = Ok r' -> LInv r -> LInv r'.
+Proof. intros H. apply fr_LInv. eapply on_persist_snap_fr; exact H. Qed.
+
+Theorem misc_api_LInv :
+  (forall r hs r', load_state r hs = Ok r' -> LInv r -> LInv r') /\
+  (forall r r' c, request_snapshot r = Ok (r', c) -> LInv r -> LInv r') /\
+  (forall r r', ping r = Ok r' -> LInv r -> LInv r') /\
+  (forall r t c r', adjust_max_inflight_msgs r t c = Ok r' -> LInv r -> LInv r') /\
+  (forall r, LInv r -> LInv (maybe_free_inflight_buffers r)) /\
+  (forall r k, LInv r -> LInv (set_max_apply_unpersisted_log_limit r k)) /\
+  (forall r e r', enable_group_commit r e = Ok r' -> LInv r -> LInv r') /\
+  (forall r ids r', assign_commit_groups r ids = Ok r' -> LInv r -> LInv r').
+Proof.
+  repeat split.
+  - intros r hs r' H. apply lk_LInv. eapply load_state_lk; exact H.
+  - intros r r' c H. apply fr_LInv. eapply request_snapshot_fr; exact H.
+  - intros r r' H. apply fr_LInv. eapply ping_fr; exact H.
+  - intros r t c r' H. apply fr_LInv. eapply adjust_max_inflight_msgs_fr; exact H.
+  - intros r. apply fr_LInv. apply maybe_free_inflight_buffers_fr.
+  - intros r k. apply fr_LInv. apply set_max_apply_unpersisted_log_limit_fr.
+  - intros r e r' H. apply fr_LInv. eapply enable_group_commit_fr; exact H.
+  - intros r ids r' H. apply fr_LInv. eapply assign_commit_groups_fr; exact H.
+Qed.
+
+Theorem rn_ready_RInv n n' rd : rn_ready n = Ok (n', rd) -> RInv n -> RInv n'.
+Proof. intros H. unfold RInv. apply fr_LInv. eapply rn_ready_fr; exact H. Qed.
+
+Theorem rn_on_persist_ready_RInv n k n' : rn_on_persist_ready n k = Ok n' -> RInv n -> RInv n'.
+Proof. intros H. unfold RInv. apply fr_LInv. eapply rn_on_persist_ready_fr; exact H. Qed.
+
+Theorem rn_advance_append_async_RInv n rd n' :
+  rn_advance_append_async n rd = Ok n' -> RInv n -> RInv n'.
+Proof. unfold rn_advance_append_async. apply commit_ready_RInv. Qed.
+
+(* ------------------------------------------------------------------ *)
 (* 1 (assembled): the complete characterisation of the proposal filter *)
 Theorem propose_filter r ents info i r' ents' ok :
   filter_conf_changes r ents info i = (r', ents', ok) ->
@@ -2688,6 +2810,16 @@ Definition s_follower : raft := s_raft Follower (s_log (e_norm 1 3) 3 2) c3 0 tr
 Definition s_learner : raft := s_raft Follower (s_log (e_norm 1 3) 3 3) c3l 0 false 2.
 (* a leader in an auto-leave joint configuration whose enter-joint entry 3 is being applied *)
 Definition s_leader_joint : raft := s_raft Leader (s_log (e_cc 2 3) 3 2) c3j 3 true 1.
+
+(* a single-voter node restarted with a lagging commit/applied index: entries 2 and 3 are
+   membership changes, only entry 1 is committed and applied *)
+Definition s_solo : raft :=
+  mkRaft 2 1 1 []
+    (mkLog (mkMem (mkHS 2 1 1) (mkCS [1] [] [] [] false) [e_norm 1 1; e_cc 1 2; e_cc 2 3] 0 0
+                  false false None) (mkUn None [] 0 4) 1 3 1 0)
+    4 u64_max 0 Follower true 0 None 0 (ro_new 0) 0 0 false false false
+    false false 1 10 15 10 20 0%Z u64_max 0 3 u64_max
+    (mkTr [(1, s_pr 3)] (mkConf [1] [] [] [] false) [] 4 false) [] [12; 13; 14] None.
 
 (* a proposal: two membership changes and a normal entry *)
 Definition s_prop : msg :=
